@@ -15,6 +15,9 @@ def modelled : List String := [
   "ffg.Element.Exp",
   "ffg.Element.Legendre",
   "ffg.Element.Sqrt",
+  "tree.<layout>@ff",
+  "tree.<layout>@ffg",
+  "tree.<layout>@root",
   "ff.<asm>@element_mul_adx_amd64.s",
   "ff.<asm>@element_mul_amd64.s",
   "ff.<asm>@element_ops_amd64.s",
@@ -39,6 +42,6 @@ theorem source_pinned : modelled.all (same I3.Gen.fingerprints) = true := by dec
 theorem function_set_pinned : (["ff.", "ffg."] : List String).all (sameKeys I3.Gen.fingerprints) = true := by
   decide +kernel
 
-theorem modelled_nonempty : 23 = modelled.length := by decide
+theorem modelled_nonempty : 26 = modelled.length := by decide
 
 end I3.Props.C18
